@@ -69,9 +69,10 @@ theorem turn_agree {s : State} {mv : Move} {sm : Spec.SMove} (hcol : sm.color = 
 theorem fullmove_agree {s : State} {mv : Move} {sm : Spec.SMove} (hcol : sm.color = absColor s.turn)
     (p : Piece) (map : PieceMap) :
     (abs (finish s mv p map)).fullmove = (Spec.applyMove (abs s) sm).fullmove := by
-  show (if s.turn == Color.black then s.fullmove + 1 else s.fullmove) =
-    (if sm.color == Spec.Color.black then s.fullmove + 1 else s.fullmove)
+  show (if s.turn == Color.black then clockSucc s.fullmove else s.fullmove) =
+    (if sm.color == Spec.Color.black then Spec.clockSucc s.fullmove else s.fullmove)
   rw [hcol, absColor_eq_black]
+  rfl
 
 /-- halfmove clock -/
 theorem halfmove_agree {s : State} {mv : Move} {sm : Spec.SMove} (hspec : toSpecMove mv = some sm)
@@ -79,8 +80,8 @@ theorem halfmove_agree {s : State} {mv : Move} {sm : Spec.SMove} (hspec : toSpec
     (abs (finish s mv p map)).halfmove = (Spec.applyMove (abs s) sm).halfmove := by
   obtain ⟨p', hp', hk, _, _, _, hcap, _⟩ := toSpecMove_some hspec
   rw [hp] at hp'; cases hp'
-  show (if (Move.isCapture mv || p == Piece.pawn) then 0 else s.halfmove + 1) =
-    (if (sm.kind == Spec.Kind.pawn || sm.capture.isSome) then 0 else s.halfmove + 1)
+  show (if (Move.isCapture mv || p == Piece.pawn) then 0 else clockSucc s.halfmove) =
+    (if (sm.kind == Spec.Kind.pawn || sm.capture.isSome) then 0 else Spec.clockSucc s.halfmove)
   have h1 : sm.capture.isSome = Move.isCapture mv := by
     rw [isCapture_eq hc, hcap]
     cases hq : Move.capture mv with
@@ -89,6 +90,7 @@ theorem halfmove_agree {s : State} {mv : Move} {sm : Spec.SMove} (hspec : toSpec
       obtain ⟨k, hk⟩ := Wee.C10.absKind_some q (capture_ne_none hq)
       simp [hk]
   rw [h1, absKind_beq_pawn hk, Bool.or_comm]
+  rfl
 
 /-- en-passant target -/
 theorem ep_agree {s : State} {mv : Move} {sm : Spec.SMove} (hspec : toSpecMove mv = some sm)
